@@ -12,6 +12,7 @@ from linear_operator.operators._linear_operator import IndexType, LinearOperator
 from linear_operator.operators.diag_linear_operator import ConstantDiagLinearOperator
 from linear_operator.operators.zero_linear_operator import ZeroLinearOperator
 
+from linear_operator.utils.broadcasting import _matmul_broadcast_shape
 from linear_operator.utils.generic import _to_helper
 from linear_operator.utils.getitem import _compute_getitem_size, _is_noop_index
 from linear_operator.utils.memoize import cached
@@ -213,6 +214,8 @@ class IdentityLinearOperator(ConstantDiagLinearOperator):
         self: Float[LinearOperator, "*batch M N"],
         other: Union[Float[Tensor, "*batch2 N P"], Float[Tensor, "*batch2 N"], Float[LinearOperator, "*batch2 N P"]],
     ) -> Union[Float[Tensor, "... M P"], Float[Tensor, "... M"], Float[LinearOperator, "... M P"]]:
+        # Raise on incompatible shapes (the identity would otherwise hand back an operand of any size)
+        _matmul_broadcast_shape(self.shape, other.shape)
         is_vec = False
         if other.dim() == 1:
             is_vec = True
